@@ -93,6 +93,29 @@ def run(prog, ctx):
             res.undecided += 1
     res.rule("C17.R", nR, 60, "configuration-range arithmetic obligations")
     res.rule("C17.A", nA, 0, "API-argument length arithmetic obligations")
+    # ---------------- C17.I structural invariants behind the code's own expect()/assert!/unreachable!() sites
+    # (open-addressing probe geometry agreeing between insert / find / grow, tables never full, purge before insert,
+    # fixed-size buffers never outgrown): decided by the structural rules of the packs below; a violation there means an
+    # internal `expect`/assert can fire on valid use
+    import importlib
+    INVARIANT_RULES = {"C02": ("C02.Q", "C02.Q2", "C02.A4", "C02.R"), "C04": ("C04.K", "C04.G", "C04.R"), "C07": ("C07.P",), "C18": ("C18.G", "C18.K"),
+                       "C16": ("C16.B",)}
+    nI = 0
+    for pack, rules in sorted(INVARIANT_RULES.items()):
+        try:
+            r = importlib.import_module("analyzer.rules." + pack).run(prog, dict(ctx))
+        except Exception as ex:
+            res.extra.setdefault("undecided_imports", []).append("%s: %r" % (pack, ex))
+            continue
+        for rid in rules:
+            inst = r.rules.get(rid, {}).get("instances", 0) if hasattr(r, "rules") else 0
+            nI += inst
+        for v in r.violations:
+            if v.rule in rules and "anchor-lost" not in v.key:
+                res.violate("C17.I", "C17.I|" + v.key, "internal invariant behind an expect/assert can break: " + v.message, getattr(v, "fn", None), getattr(v, "span", None))
+        res.obligations += sum(1 for rid in rules)
+        res.discharged += sum(1 for rid in rules if not any(v.rule == rid for v in r.violations))
+    res.rule("C17.I", nI, 20, "structural-invariant rule instances imported from C02/C04/C07/C16/C18")
     res.extra["precondition_census"] = {"count": nP, "examples": census}
     res.extra["analysis"] = an.stats
     res.explanation = ("interval abstract interpretation of the whole crate (%d functions) with every parameter of the %d exported functions "
